@@ -370,9 +370,9 @@ func runSuite(out *os.File, suite, repo, verif, tier string, seed int64, keep bo
 				ex := f.Examples[0]
 				rep := map[string]interface{}{"suite": suite, "function": c.Function, "kind": c.Kind, "property_ids": c.Props,
 					"decision": f.Decision, "count": f.Count, "input": ex.Input, "library": ex.Lib, "oracle": ex.Want,
-					"go_test": ex.GoTest, "more_examples": f.Examples[1:], "tier": tier, "seed": seed,
+					"go_test": ex.GoTest, "go_test_file": testFile(ex.GoTest), "more_examples": f.Examples[1:], "tier": tier, "seed": seed,
 					"repo_commit": commit, "repo_dirty": dirty, "level": "bounded",
-					"how_to_replay": "paste go_test into a _test.go file of package geometry (or inject it with go test -overlay) and run go test -run TestGovracReplay ./geometry"}
+					"how_to_replay": "save go_test_file as <repo>/geometry/zz_replay_test.go (or inject it with go test -overlay) and run: go test -vet=off -count=1 -run '^TestGovracReplay$' ./geometry"}
 				os.WriteFile(replay, marshal(rep), 0o644)
 			}
 			fmt.Fprintf(out, "BOUNDED-FAILURE suite=%s function=%s replay=%s %s\n", suite, c.Function, replay, desc)
@@ -407,6 +407,18 @@ func runSuite(out *os.File, suite, repo, verif, tier string, seed int64, keep bo
 	return 0
 }
 
+// testFile wraps a test body into a complete file of package geometry.
+func testFile(body string) string {
+	imports := []string{"\"testing\""}
+	if strings.Contains(body, "math.") {
+		imports = append([]string{"\"math\""}, imports...)
+	}
+	if strings.Contains(body, "time.") {
+		imports = append(imports, "\"time\"")
+	}
+	return "package geometry\n\nimport (\n\t" + strings.Join(imports, "\n\t") + "\n)\n\n" + body
+}
+
 // marshal renders indented JSON without HTML escaping (the replays contain Go source).
 func marshal(v interface{}) []byte {
 	var b bytes.Buffer
@@ -423,11 +435,11 @@ func marshal(v interface{}) []byte {
 func layoutSource() string {
 	b, _ := embedded.ReadFile("harness/index.go.txt")
 	s := string(b)
-	i, j := strings.Index(s, "//GVLAYOUT-BEGIN"), strings.Index(s, "//GVLAYOUT-END")
+	i, j := strings.Index(s, "// GVLAYOUT-BEGIN"), strings.Index(s, "// GVLAYOUT-END")
 	if i < 0 || j < i {
-		return "// (generator source unavailable)"
+		panic("govrac: layout generator markers missing in harness/index.go.txt")
 	}
-	return strings.TrimSpace(s[i+len("//GVLAYOUT-BEGIN"):j]) + "\n"
+	return strings.TrimSpace(s[i+len("// GVLAYOUT-BEGIN"):j]) + "\n"
 }
 
 func compact(raw json.RawMessage) string {
